@@ -24,6 +24,7 @@ ASSUMPTIONS = ["E2 small-curve retargeting (see C03)", "reference predicate vf/r
                "vf/ref/der_ref.py; a DER string valid only under a lenient reading may be accepted or rejected"]
 OBLIGATIONS = {
     "concurrent_calls": "interleavings of two concurrent calls (single-case checks in two threads, cold and after warm-up calls)",
+    "long_history": "operations executed in one long history (every key of a 199-element group, forward / forward / reverse)",
     "history_sequences": "operation sequences (non-initial process states) explored",
     "concurrent_first_calls": "interleavings of two concurrent first sig_verify calls explored",
     "infinity_tuple": "a tuple with u1*G + u2*P = infinity was offered",
@@ -191,6 +192,29 @@ def run_case(kind, case):
     return CASES[kind](case)
 
 
+def long_ops(job):
+    """a valid tuple under EVERY key of the p=211 curve, and after each one the same signature under the NEXT key's public key
+    (must be rejected): fills and wraps any bounded per-key cache"""
+    cv = job["curve"]
+    C = smallcurve.curve(cv)
+    msg, flag = b"m", 1
+    z = int.from_bytes(h256(msg + flag.to_bytes(4, "little")), "big")
+    ops = []
+    sigs = {}
+    for d in range(1, C.n):
+        rs = valid_sig_for(C, d, z)
+        if rs is None:
+            continue
+        sigs[d] = (D.encode(*rs) + bytes([flag])).hex()
+    ds = sorted(sigs)
+    for i, d in enumerate(ds):
+        pk = enc_pk(C.mul(d, C.G), bool(d % 2)).hex()
+        ops.append(("tuple", {"curve": cv, "sig": sigs[d], "pk": pk, "msg": msg.hex(), "what": f"valid, key {d}"}))
+        nxt = ds[(i + 1) % len(ds)]
+        ops.append(("tuple", {"curve": cv, "sig": sigs[nxt], "pk": pk, "msg": msg.hex(), "what": f"signature of key {nxt} under key {d} (must be rejected)"}))
+    return ops
+
+
 def seq_ops(job):
     """operations whose answers must not depend on what was verified before: keys d and n-d (same x, opposite parity) in
     both encodings, the parity-flipped key of a valid tuple, uncompressed forms, low-S normalisation"""
@@ -267,6 +291,8 @@ def jobs(tier, seed):
     js.append({"name": "secp/lows", "part": "real-lows", "weight": 4})
     from vf.runner import seq_jobs
     js += seq_jobs(4, curve=t43, weight=4)
+    from vf.runner import long_jobs
+    js += long_jobs(curve=list(smallcurve.TABLE[5]))
     from vf.runner import concur_jobs
     js += concur_jobs(len(CONCUR_SCEN) - (1 if tier == "quick" else 0), curve=t43)
     for i in range(2):
@@ -298,6 +324,9 @@ def run_job(job):
         ops = seq_ops(dict(job, shard=[0, 1]))
         scens = [{"threads": [ops[i] for i in sc[0]], "warm": [ops[i] for i in sc[1]], "post": [ops[i] for i in (sc[2] if len(sc) > 2 else ())]} for sc in CONCUR_SCEN]
         return run_concur_job(job, scens, run_case, PROPERTY, CONCUR_FILES)
+    if job["part"] == "longhist":
+        from vf.runner import run_long_job
+        return run_long_job(job, long_ops(job), run_case)
     if job["part"] == "seq":
         from vf.runner import run_seq_job
         return run_seq_job(job, seq_ops(job), run_case)
